@@ -90,6 +90,13 @@ def run(res, tier, seed, shard, nshards):
         for d in ("x.t", ".x.t"):
             histories.append(((d, cs),))
             histories.append(((d, (("sid", "good"),)), (d, cs)))
+    # empty values (a cookie that is set, and blank): sent as "name=", and the latest value wins when it is the empty one
+    for d in ("x.t", ".x.t", "X.T"):
+        for cs in ((("a", ""),), (("a", ""), ("b", "2")), (("a", "1"), ("b", ""))):
+            histories.append(((d, cs),))
+            histories.append(((d, (("a", "old"), ("b", "old"))), (d, cs)))
+            histories.append(((d, cs), (d, (("a", "new"),))))
+            histories.append(((d, cs), ("y.t", (("a", "9"),))))
 
     def scen():
         for i, hst in enumerate(histories):
@@ -129,6 +136,7 @@ def history_case(res, W, rng, hst):
     hkw = {"header": shared} if shared is not None else {}
     if shared is not None:
         res.count("histories_with_shared_header_list")
+    unjudged_names = set()
     for hi, (domain, cs) in enumerate(hst):
         two_lines = len(cs) == 2 and rng.random() < 0.5
         # the attribute in the spellings RFC 6265 5.2 allows (name matched caselessly, white space around "=" ignored)
@@ -136,10 +144,18 @@ def history_case(res, W, rng, hst):
         dom = spelling.format(domain) if domain is not None else ""
         if domain is not None:
             res.count("domain_attribute_spellings:" + spelling.strip("; {}").replace("\t", "TAB").replace(" ", "SP"))
+        optional = ()
         if two_lines:
-            lines = [f"Set-Cookie: {n}={v}{dom}" for n, v in cs]
+            # the Domain attribute on every line, or on one of them only (then the cookie of the other line has no Domain of its own:
+            # whether the response's Domain counts for it too is left open - it is taken out of the comparison)
+            pos = rng.choice(["all", "all", "first", "last"]) if domain is not None else "all"
+            res.count("two_line_responses_domain_on:" + pos)
+            lines = [f"Set-Cookie: {n}={v}{dom if pos == 'all' or (pos == 'first') == (i == 0) else ''}" for i, (n, v) in enumerate(cs)]
+            if pos != "all":
+                optional = (cs[1][0],) if pos == "first" else (cs[0][0],)
         else:
             lines = ["Set-Cookie: " + "; ".join(f"{n}={v}" for n, v in cs) + dom]
+        unjudged_names.update(optional)
         if rng.random() < 0.3:
             lines = [ln + "; Path=/" for ln in lines]
         plan["next_set_cookie"] = lines
@@ -171,7 +187,17 @@ def history_case(res, W, rng, hst):
         req = requests[n0]
         _, _, _, headers, _ = RH.parse_request(req)
         ck = RH.get_all(headers, "Cookie")
+        if unjudged_names and ck:
+            ncall = len(caller.split("; ")) if caller else 0
+            items = ck[0].split("; ")
+            jar_items = items[:len(items) - ncall] if ncall else items
+            kept = [it for it in jar_items if it.split("=", 1)[0] not in unjudged_names] + (items[len(items) - ncall:] if ncall else [])
+            ck = [("; ".join(kept))] if kept else []
         pairs, _ = ref.header(probe[1:-1] if probe.startswith("[") else probe, caller)
+        if unjudged_names:
+            # cookies that came without a Domain of their own next to one that had it: out of the comparison, here and on the wire
+            pairs = [(n, v) for n, v in pairs if n not in unjudged_names]
+            res.count("probes_with_unjudged_names")
         exp_items = [f"{n}={v}" for n, v in pairs] + (caller.split("; ") if caller else [])
         res.case((hst, probe, caller), nontrivial=stored)
         res.count("cookie_headers_checked")
